@@ -219,6 +219,10 @@ func runC16(cfg *config) *Report {
 				for k := 0; k < len(crlf); k += 5 {
 					inputs = append(inputs, input{crlf[:k], e, fmt.Sprintf("CR LF file cut at byte %d", k), false})
 				}
+				// doubled carriage returns (a file converted twice): the line splitter drops one, whoever delivers the bytes
+				crcrlf := bytes.ReplaceAll(out, []byte("\n"), []byte("\r\r\n"))
+				inputs = append(inputs, input{crcrlf, e, "whole file, CR CR LF line ends", false})
+				inputs = append(inputs, input{append(bytes.TrimRight(append([]byte{}, out...), "\n"), '\r', '\r'), e, "whole file, last line ends in CR CR without LF", false})
 			}
 		}
 	}
@@ -230,6 +234,14 @@ func runC16(cfg *config) *Report {
 			rep.violate(Violation{Key: "C16:reader-panic", What: fmt.Sprint("Reader panicked: ", p), Replay: map[string]any{"bytes": hx(in.b), "enc": in.e.String()}})
 			continue
 		}
+		// the same bytes handed over as an in-memory source (bytes.Reader), as most callers do: same result
+		if df, derr, dp := realRead(in.b, in.e, 1<<22); dp != nil {
+			rep.violate(Violation{Key: "C16:reader-panic", What: fmt.Sprint("Reader panicked on an in-memory source: ", dp), Replay: map[string]any{"bytes": hx(in.b), "enc": in.e.String()}})
+		} else if d := canonErr(derr) + " # " + dumpFile(&df); d != ref {
+			rep.violate(Violation{Key: "C16:in-memory-source-read-differently:" + in.e.String(), What: "the same bytes are read differently from a bytes.Reader and from a stream (" + in.desc + ")",
+				Replay: map[string]any{"bytes": hx(in.b), "enc": in.e.String(), "from_stream": ref[:min(300, len(ref))], "from_memory": d[:min(300, len(d))]}})
+		}
+		evals++
 		if in.cut && len(ref) >= 2 && ref[:2] == "ok" {
 			rep.violate(Violation{Key: "C16:cut-accepted:" + in.e.String(), What: "a length-prefixed stream cut inside a record was read without error (" + in.desc + ")",
 				Replay: map[string]any{"bytes": hx(in.b), "enc": in.e.String()}})
